@@ -27,7 +27,7 @@ func fieldOfAddr(v ssa.Value) (structField, bool) {
 		if !ok {
 			return structField{}, false
 		}
-		return structField{fa.X, namedOf(pt.Elem()), st.Field(fa.Field).Name()}, true
+		return structField{fa.X, namedOf(pt.Elem()), canonFieldName(namedOf(pt.Elem()), st, fa.Field)}, true
 	}
 	return structField{}, false
 }
@@ -44,7 +44,7 @@ func loadedField(v ssa.Value) (structField, bool) {
 		if !ok {
 			return structField{}, false
 		}
-		return structField{x.X, namedOf(x.X.Type()), st.Field(x.Field).Name()}, true
+		return structField{x.X, namedOf(x.X.Type()), canonFieldName(namedOf(x.X.Type()), st, x.Field)}, true
 	}
 	return structField{}, false
 }
@@ -259,7 +259,7 @@ func isFrameLocals(sf structField) bool {
 		return false
 	}
 	for i := 0; i < st.NumFields(); i++ {
-		if st.Field(i).Name() != sf.Name {
+		if canonFieldName(sf.Struct, st, i) != sf.Name {
 			continue
 		}
 		m, ok := st.Field(i).Type().Underlying().(*types.Map)
